@@ -75,14 +75,16 @@ def cow_write_set(ctx):
         du = ctx.du(fn)
         t = fn.term(bb)
         # (a) the buffer written comes from the transaction's allocation map
-        _, atoms = du.slice_operand(t['args'][1])
-        buf_ok = has_field(atoms, 'TxFreelist', 'pages')
+        atoms = commit.climb_atoms(ctx, fn, t['args'][1], list(n.ctx))
+        # ... and from nowhere else that outlives the transaction (a buffer kept in the shared handle carries bytes of an earlier commit)
+        shared_buf = sorted({a[2] for a in atoms if a[0] == 'field' and a[1] and last_seg(a[1]) == 'DBInner' and a[2] not in ('pagesize', 'flags', 'file')})
+        buf_ok = has_field(atoms, 'TxFreelist', 'pages') and not shared_buf
         # (b) a seek on the file dominates the write and its offset comes from the same map
         seeks = calls_named(ctx.facts, fn, 'Seek::seek')
         dom_seeks = [(sb, st) for sb, st, sc in seeks if fn.dominates(sb, bb) and 'std::fs::File' in (sc.get('self_ty') or '')]
         seek_ok = False
         for sb, st in dom_seeks:
-            _, sat = du.slice_operand(st['args'][1])
+            sat = commit.climb_atoms(ctx, fn, st['args'][1], list(n.ctx))
             if has_field(sat, 'TxFreelist', 'pages'):
                 seek_ok = True
         if buf_ok and seek_ok:
@@ -502,6 +504,8 @@ def run(ctx, tier):
     import profile
     results += profile.debug_pure(ctx, 'C02.debug-pure')
     results += c12.header_extent(ctx, rule='C02.header-extent')
+    import c06
+    results += c06.open_existing(ctx, rule='C02.open-existing')
     return dict(
         results=results,
         stats=dict(ctx.stats),
